@@ -1,23 +1,35 @@
 #!/bin/sh
-# selftest/run.sh [mutant ...]: applies each mutant patch to /repo, checks that it compiles and that the
-# repository's own tests still pass, runs the quick check of the property named by the file prefix (or
-# the checks given as PROPS="C01 C02"), reverts, and reports whether the check caught it.
+# selftest/run.sh [mutant.diff ...]
+# For each mutant patch: a scratch worktree of /repo (under /tmp, removed afterwards) gets the patch; it must
+# compile; the repository's own tests are run on it (baseline=pass/FAIL, skipped with SKIP_BASELINE=1); then the
+# quick check of the property named by the file prefix (or PROPS="C01 C02") runs against that worktree
+# (VERIF_REPO) with evidence/replay redirected to a scratch directory. JOBS=n runs n mutants at a time.
 cd "$(dirname "$0")/.."
 export GOFLAGS=-mod=mod GOPROXY=off GOSUMDB=off GOTOOLCHAIN=local
 [ $# -eq 0 ] && set -- selftest/mutants/*.diff
-if [ -n "$(git -C /repo status --porcelain)" ]; then echo "/repo is not clean"; exit 2; fi
-for m in "$@"; do
+one() {
+  m=$1
   name=$(basename "$m" .diff)
   props=${PROPS:-$(echo "$name" | cut -d- -f1)}
-  git -C /repo apply "$(pwd)/$m" || { echo "$name: patch does not apply"; continue; }
-  if ! (cd /repo && go build ./... ) >/dev/null 2>&1; then echo "$name: DOES NOT COMPILE"; git -C /repo checkout -- .; continue; fi
+  wt=/tmp/selftest-$name-$$
+  out=/verif/work/selftest-$name-$$
+  git -C /repo worktree add -q --detach "$wt" HEAD 2>/dev/null || { echo "$name: cannot create worktree"; return; }
+  if ! git -C "$wt" apply "$(pwd)/$m" 2>/dev/null; then echo "$name: patch does not apply"; git -C /repo worktree remove --force "$wt"; return; fi
+  if ! (cd "$wt" && go build ./... ) >/dev/null 2>&1; then echo "$name: DOES NOT COMPILE"; git -C /repo worktree remove --force "$wt"; return; fi
   if [ -z "$SKIP_BASELINE" ]; then
-    if (cd /repo && go test -vet=off -count=1 ./... ) >/dev/null 2>&1; then base=pass; else base=FAIL; fi
+    if (cd "$wt" && go test -vet=off -count=1 ./... ) >/dev/null 2>&1; then base=pass; else base=FAIL; fi
   else base=skipped; fi
   for p in $props; do
-    out=$(./check "$p" quick 2>&1); rc=$?
-    echo "$name: baseline=$base check=$p exit=$rc $(echo "$out" | grep -m1 -A1 VIOLATION | tail -1 | cut -c1-200)"
+    o=$(VERIF_REPO="$wt" VERIF_OUT="$out" ./check "$p" quick 2>&1); rc=$?
+    echo "$name: baseline=$base check=$p exit=$rc $(echo "$o" | grep -m1 -A1 VIOLATION | tail -1 | cut -c1-200)"
   done
-  git -C /repo checkout -- .
-  rm -rf replay
+  git -C /repo worktree remove --force "$wt"
+  rm -rf "$out"
+}
+n=0
+for m in "$@"; do
+  one "$m" &
+  n=$((n+1))
+  if [ $((n % ${JOBS:-1})) -eq 0 ]; then wait; fi
 done
+wait
